@@ -108,7 +108,7 @@ BUILTIN = {
     ("function", "none", "none"): ("sys", "addaudithook"),
     ("attribute",): ("errno", "EPERM"),
 }
-CASE_KEYS = ["dtext", "guard", "dfield", "part", "origin", "kind", "host", "mname", "doc", "cwdrel", "bases", "deco", "pann", "pdef", "pdoc", "ret", "val", "ann",
+CASE_KEYS = ["nsparts", "dtext", "guard", "dfield", "part", "origin", "kind", "host", "mname", "doc", "cwdrel", "bases", "deco", "pann", "pdef", "pdoc", "ret", "val", "ann",
              "where", "alno", "resolved", "slot", "spine", "leaf", "section"]
 
 
@@ -267,7 +267,13 @@ def layout(case: dict, idx: int, lean: bool = False) -> dict:
         else:
             files[f"{pkg}/sub.py"] = prelude + "\n".join(focus_lines(case, "", pkg)) + "\n"
             names = ["sub", case["mname"]]
-        return {"files": files, "pkg": pkg, "opts": opts, "real_names": names, "model_names": names, "prune": False}
+        search = [""]
+        if case.get("nsparts") == "two":
+            # two portions of the namespace package on two search paths, given in NON-lexicographic order
+            files = {f"site_b/{rel}": text for rel, text in files.items()}
+            files[f"site_a/{pkg}/other.py"] = "\n"
+            search = ["site_b", "site_a"]
+        return {"files": files, "pkg": pkg, "opts": opts, "real_names": names, "model_names": names, "prune": False, "search": search}
     body = list(root_doc)
     body.append(prelude)
     names: list = []
@@ -321,6 +327,10 @@ def alpha(v, key=None):
             and v["endlineno"] > v["lineno"]:
         # Serde!JIntAfter: the end line of a multi-line import
         return {"t": "object", "f": {k: ({"t": "integer", "v": "after"} if k == "endlineno" else alpha(x, k)) for k, x in v.items()}}
+    if key == "filepath" and isinstance(v, list) and len(v) == 2 and all(isinstance(x, str) for x in v):
+        # Serde!DirsJSON: the directories of a two-portion namespace package, by their rank in sorted order
+        ranks = sorted(v)
+        return {"t": "array", "items": [{"t": "string", "v": f"dir{ranks.index(x) + 1}"} for x in v]}
     if key == "docstring" and isinstance(v, dict) and isinstance(v.get("value"), str):
         # Serde: the value of a docstring is tracked as "is it a fixpoint of inspect.cleandoc"
         import inspect  # noqa: PLC0415
@@ -554,7 +564,7 @@ def exc_sig(exc: BaseException) -> dict:
 def _load(griffe, lay: dict, base: str, store_source=None):
     opts = lay["opts"]
     loader = griffe.GriffeLoader(
-        search_paths=[base],
+        search_paths=[os.path.join(base, sp) if sp else base for sp in lay.get("search", [""])],
         force_inspection=opts["force_inspection"],
         store_source=opts["store_source"] if store_source is None else store_source,
         docstring_parser=griffe.Parser(opts["docstring_parser"]) if opts["docstring_parser"] else None,
@@ -769,7 +779,7 @@ def _dump_check(griffe, lay, work, root, enc) -> dict:
         buf = io.StringIO()
         try:
             rc = griffe.dump(
-                [lay["pkg"]], output=buf, full=full, search_paths=[work], force_inspection=lay["opts"]["force_inspection"],
+                [lay["pkg"]], output=buf, full=full, search_paths=[os.path.join(work, sp) if sp else work for sp in lay.get("search", [""])], force_inspection=lay["opts"]["force_inspection"],
                 docstring_parser=griffe.Parser(lay["opts"]["docstring_parser"]) if lay["opts"]["docstring_parser"] else None,
             )
         except Exception as exc:  # noqa: BLE001
